@@ -127,6 +127,41 @@ MOS += [
 ]
 
 
+def seq_allocation(F):
+    """Sequence numbers: the counter advances by exactly the number of entries logged (1 for single-entry
+    writers; wal_entries.len() for batch_delete, where entries are numbered base..base+len-1)."""
+    import re as _re
+    import vlib.mir as _M
+    from vlib.mirflow import origin as _o
+    out = []
+    for fn_name, want, what in ((H + "insert", r"^const 1_u64$", "1"), (H + "delete", r"^const 1_u64$", "1"), (H + "update_metadata", r"^const 1_u64$", "1"),
+                                (H + "batch_delete", r"call Vec::<(persistence::)?WalEntry>::len\} as u64|^\{?call Vec::<(persistence::)?WalEntry>::len", "wal_entries.len()")):
+        fc = FnCheck(F, fn_name, containing=SEQ_FETCH_ADD)
+        if fc.fn is None:
+            out.append(fc.missing())
+            continue
+        blocks = [b for b in fc.fn.blocks.values() if not b.cleanup and SEQ_FETCH_ADD.match_block(fc.fn, b)]
+        if not blocks:
+            out.append(Result("inconclusive", "no next_wal_seq.fetch_add in %s" % fn_name))
+            continue
+        for b in blocks:
+            args = _M._split_top(b.args)
+            amount = _o(fc.fn, args[1]) if len(args) > 1 else "?"
+            ok = bool(_re.search(want, amount))
+            r = fc.reachable(SEQ_FETCH_ADD)
+            smp = {"fn": fc.name, "kind": "PROVENANCE", "call": "next_wal_seq.fetch_add", "amount": amount[:120], "expected": what}
+            if ok:
+                out.append(Result("holds", "amount = %s" % amount[:80], queries=r.queries, seconds=r.seconds, sample=smp))
+            else:
+                out.append(Result("violated", "%s: next_wal_seq advances by `%s`, expected %s (sequence numbers would be reused or skipped)" % (fn_name, amount[:120], what),
+                                  queries=r.queries, seconds=r.seconds, sample=smp))
+    return out
+
+
+MOS.append(MO("O1.9/seq_allocation", "sequence allocation: next_wal_seq.fetch_add advances by exactly the number of WAL entries the operation logs (MIR def-use provenance of the amount argument; reachability by z3)",
+              seq_allocation, functions=[("hnsw_backend.rs", f) for f in ("insert", "delete", "update_metadata", "batch_delete")]))
+
+
 def run(tier, seed, notes):
     obls = run_mir_obligations("C01", tier, MOS, notes)
     return obls
